@@ -298,6 +298,77 @@ Record hb_obs := {
   h_result : hb_result
 }.
 
+(* ---------------- the signing executor's retry loop under the action deadline ----------------
+   signing.go sign() + signing_loop.go start(), for a member whose attempts all fail, in the
+   driver's simulated world: the block clock moves only when nothing else can happen and then
+   jumps to the earliest awaited block; the caller's context is cancelled in the step in which
+   the clock reaches the deadline [d].  [par] = the loop context is derived from the caller's
+   context (the code as written: withCancelOnBlock(ctx, loopTimeoutBlock, ...)); [par = false] is
+   the variant whose loop context has no parent, kept for the refutation theorem.
+   An attempt [k] (from 0) of a message starting at [s]: announcement from [ann_start] to
+   [ann_end]; the real announcer on a silent channel reports a minority ready at [ann_end] and
+   the loop moves on (FMinority), or the loop's wait for [ann_start] fails at once (FWaitErr). *)
+Inductive fail_kind := FMinority | FWaitErr.
+
+Record loop_obs := {
+  l_sends : list (Z * bool);  (* clock at every announcement sent, and whether its context was live *)
+  l_end : Z;                  (* clock when sign() returned; -1: never (out of fuel / at rest, not returned) *)
+  l_err : bool                (* returned an error and no signature *)
+}.
+
+Definition ann_start (s k : Z) : Z := s + k * attempt_max_blocks + signingAttemptAnnouncementDelayBlocks.
+Definition ann_end (s k : Z) : Z := ann_start s k + signingAttemptAnnouncementActiveBlocks.
+(* the clock value from which the loop context is done *)
+Definition close_time (par : bool) (s d : Z) : Z :=
+  if par then Z.min (s + loop_blocks) d else s + loop_blocks.
+(* a wait for block [b] entered at clock [t] returns at this clock value (block reached or loop
+   context done, whichever the clock meets first) *)
+Definition wait_until (cl t b : Z) : Z := Z.max t (Z.min b cl).
+
+Fixpoint run_loop (cl s : Z) (script : list fail_kind) (fuel : nat) (k t : Z) (acc : list (Z * bool))
+  : loop_obs :=
+  match fuel with
+  | O => {| l_sends := rev acc; l_end := -1; l_err := false |}
+  | S f =>
+      if cl <=? t then {| l_sends := rev acc; l_end := t; l_err := true |}   (* loop top: ctx.Err() *)
+      else if ann_end s k <=? t then run_loop cl s (tl script) f (k + 1) t acc  (* announcement window in the past: skipped *)
+      else match hd FMinority script with
+           | FWaitErr => run_loop cl s (tl script) f (k + 1) t acc
+           | FMinority =>
+               let t1 := wait_until cl t (ann_start s k) in
+               let acc' := (t1, negb (cl <=? t1)) :: acc in          (* Announce sends first *)
+               if cl <=? t1 then {| l_sends := rev acc'; l_end := t1; l_err := true |}
+               else let t2 := wait_until cl t1 (ann_end s k) in       (* ... and blocks until its context is done *)
+                    if cl <=? t2 then {| l_sends := rev acc'; l_end := t2; l_err := true |}
+                    else run_loop cl s (tl script) f (k + 1) t2 acc'
+           end
+  end.
+
+Definition loop_fuel (script : list fail_kind) : nat :=
+  (length script + Z.to_nat signingAttemptsLimit + 3)%nat.
+
+(* sign(ctx, message, s) called at clock [c0] with the caller's context cancelled at [d] *)
+Definition sign_model (par : bool) (s d c0 : Z) (script : list fail_kind) : loop_obs :=
+  run_loop (close_time par s d) s script (loop_fuel script) 0 c0 [].
+
+(* the property on an observation: sign() has returned, with an error, by the time the clock
+   shows the deadline (or at the clock of the call if that is later, or earlier when its own loop
+   timeout comes first), and no attempt was started (announced on a live context) at or after
+   the deadline block *)
+Definition live_before (d : Z) (x : Z * bool) : bool := negb (snd x) || (fst x <? d).
+Definition loop_spec_ok (s d c0 : Z) (o : loop_obs) : bool :=
+  (0 <=? l_end o) && (l_end o <=? Z.max c0 (Z.min (s + loop_blocks) d))
+  && forallb (live_before d) (l_sends o) && l_err o.
+
+Fixpoint sends_eqb (a b : list (Z * bool)) : bool :=
+  match a, b with
+  | [], [] => true
+  | (x, p) :: a', (y, q) :: b' => (x =? y) && Bool.eqb p q && sends_eqb a' b'
+  | _, _ => false
+  end.
+Definition loop_obs_eqb (a b : loop_obs) : bool :=
+  sends_eqb (l_sends a) (l_sends b) && (l_end a =? l_end b) && Bool.eqb (l_err a) (l_err b).
+
 Inductive case :=
 (* a transaction action built by its production constructor for (start, expiry) *)
 | CStatic (a : action) (start exp : Z) (o : static_obs)
@@ -313,7 +384,10 @@ Inductive case :=
    followed by the scripted steps: the start block handed to the executor, the block the waiter
    was asked for, and one observation after the arming and after every step *)
 | CEnforce (ar : armer) (armed : Z) (m : wmode) (steps : list dstep)
-           (sign_start : option Z) (target_obs : option Z) (obs : list cobs).
+           (sign_start : option Z) (target_obs : option Z) (obs : list cobs)
+(* signingExecutor.sign (or signBatch) for a message starting at [s], called when the simulated
+   clock shows [c0], the caller's context cancelled at [d], every attempt failing as scripted *)
+| CLoop (s d c0 : Z) (script : list fail_kind) (o : loop_obs).
 
 Definition optZ_eqb (a b : option Z) : bool :=
   match a, b with Some x, Some y => x =? y | None, None => true | _, _ => false end.
@@ -388,6 +462,7 @@ Definition spec_ok (c : case) : bool :=
              end
           && enforce_ok false (all_steps armed steps) obs
       end
+  | CLoop s d c0 script o => loop_spec_ok s d c0 o
   end.
 
 Definition wret_eqb (a b : wret) : bool :=
@@ -420,6 +495,7 @@ Definition agree (c : case) : bool :=
          | Some tm => obs_eqb obs (model_obs m armed tm steps)
          | None => false
          end
+  | CLoop s d c0 script o => loop_obs_eqb o (sign_model true s d c0 script)
   end.
 
 Definition step_wf (d : dstep) : bool := match d with SAdvance b => is_u64 b | SCancelParent => true end.
@@ -445,6 +521,8 @@ Definition well_formed (c : case) : bool :=
   | CEnforce ar armed m steps _ _ _ =>
       armer_wf ar && is_u64 armed && mode_wf armed m && forallb step_wf steps
       && (armer_has_parent ar || negb (existsb is_cancel steps))
+  | CLoop s d c0 _ _ =>
+      is_u64 s && is_u64 d && is_u64 c0 && (s + loop_blocks + attempt_max_blocks <? two64)
   end.
 
 Definition judge (c : case) : verdict :=
@@ -470,4 +548,8 @@ Definition explain (c : case) : list (option Z) :=
                               Some (if o_closed o then 1 else 0)])
                    (model_obs m armed tm steps)
       end
+  | CLoop s d c0 script _ =>
+      (* clock at the return, then the clock of every announcement and 1 live / 0 done *)
+      let m := sign_model true s d c0 script in
+      Some (l_end m) :: flat_map (fun x : Z * bool => [Some (fst x); Some (if snd x then 1 else 0)]) (l_sends m)
   end.
